@@ -168,6 +168,10 @@ def run_property(pid, tier='quick', seed=0, replay=None):
     known = []
     canary_problems = []
     if undecided is None:
+        lost = [d for ur in unit_runs for (d, tg) in ur.gen.lost if pid in tg]
+        if lost:
+            undecided = 'lost anchor(s) of contract text that carries %s: %s' % (pid, ' ;; '.join(lost[:4]))
+    if undecided is None:
         for ur in unit_runs:
             real, can_fail, missing = split_canaries(ur)
             if missing:
